@@ -50,7 +50,7 @@ class World:
     """spec: {"wallet": [[name, Decimal]…], "vaults": [[id, {"coll","short","nft"}]…], "maxId", "positions":
     [[[lo,hi], {"liquidity","p0","p1","transferred"}]…]};
     env: {"rows": [[t, nf, weth, osqth]…], "now": int|None, "cur": [nf, weth, osqth] (used when now is None),
-          "uniPrice": Decimal, "uniOpen": bool, "flip": bool (optional; True = the pool is UniV3Pool(osqth, weth, …): token0 is oSQTH,
+          "uniPrice": Decimal, "uniOpen": bool, "fee": pool fee in percent (optional, default 0.3), "flip": bool (optional; True = the pool is UniV3Pool(osqth, weth, …): token0 is oSQTH,
           ticks are those of WETH-per-oSQTH, i.e. negative around 0.1 — the model knows the mainnet orientation only, flipped worlds
           are judged by the independent oracles)}"""
 
@@ -64,7 +64,8 @@ class World:
         self.uni_key = m["MarketInfo"]("Uni", m["MarketTypeEnum"].uniswap_v3)
         self.sq_key = m["MarketInfo"]("Squeeth", m["MarketTypeEnum"].squeeth)
         self.flip = bool(env.get("flip", False))
-        pool = m["UniV3Pool"](self.osqth, self.weth, 0.3, self.weth) if self.flip else m["UniV3Pool"](self.weth, self.osqth, 0.3, self.weth)
+        fee = float(env.get("fee", 0.3))
+        pool = m["UniV3Pool"](self.osqth, self.weth, fee, self.weth) if self.flip else m["UniV3Pool"](self.weth, self.osqth, fee, self.weth)
         self.uni = m["UniLpMarket"](self.uni_key, pool)
         self.sq = m["SqueethMarket"](self.sq_key, self.uni)
         self.broker.add_market(self.uni)
@@ -109,7 +110,7 @@ class World:
             self.sq.get_twap_price(self.osqth)
         nf, w, o = self.cur()
         return {"nf": nf, "weth": w, "osqth": o, "now": e["now"], "rows": [[r[0], r[2], r[3]] for r in e["rows"]],
-                "uniPrice": e["uniPrice"], "uniOpen": bool(e["uniOpen"]),
+                "uniPrice": e["uniPrice"], "uniOpen": bool(e["uniOpen"]), "uniFee": self.uni.pool_info.fee_rate,
                 "oracle": [[list(k), v] for k, v in _captured.items()] if e["now"] is not None else []}
 
     # ---------------------------------------------------------------- state
@@ -179,6 +180,17 @@ class World:
                 out = [D(x) for x in self.sq._reduce_debt(VK(op["vk"]), bool(op["payBounty"]))]
             elif k == "uniRemove":
                 self.uni.remove_liquidity(PI(*op["pos"]))
+            elif k in ("buy", "sell"):
+                f = self.sq.buy_squeeth if k == "buy" else self.sq.sell_squeeth
+                a, b = op.get("osqth"), op.get("eth")
+                form = op.get("call", "kw")
+                if form == "pos":                     # positional, as many arguments as are given
+                    r = f(a) if b is None else f(a, b)
+                elif form == "kw-given":              # only the keywords that are given
+                    r = f(**{n: v for n, v in (("osqth_amount", a), ("eth_amount", b)) if v is not None})
+                else:
+                    r = f(osqth_amount=a, eth_amount=b)
+                out = [D(x) for x in r]
             else:
                 raise ValueError("unknown op " + k)
             err = None
@@ -216,6 +228,9 @@ def action_json(a):
     if n == "CollectFeeAction":
         return {"k": "uniCollect", "pos": pos(a.position),
                 "n": [D(a.base_amount), D(a.quote_amount), D(a.base_balance_after), D(a.quote_balance_after)]}
+    if n in ("BuyAction", "SellAction"):
+        return {"k": "uniBuy" if n == "BuyAction" else "uniSell",
+                "n": [D(a.base_balance_after), D(a.quote_balance_after), D(a.amount), D(a.price), D(a.fee), D(a.base_change), D(a.quote_change)]}
     return {"k": n, "n": []}
 
 
@@ -456,7 +471,8 @@ class Runner:
 # Decimal NaN raises on ordering comparisons but not on == / arithmetic; float NaN compares false with everything.  Every amount slot of
 # every entry point is fed with numbers that are not ordinary finite numbers, and the state is looked at with predicates that cannot pass on NaN.
 SPECIALS = ["NaN", "-NaN", "sNaN", "Infinity", "-Infinity", "1E+400", "-1E+400", "-0", "1E-400", "float:nan", "float:inf", "float:-inf", "float:-0.0", "float:1e300"]
-SPECIAL_SLOTS = [("openMint", "deposit"), ("openMint", "mint"), ("openMint", "byRate"), ("deposit", "eth"), ("burnWithdraw", "burn"), ("burnWithdraw", "withdraw")]
+SPECIAL_SLOTS = [("openMint", "deposit"), ("openMint", "mint"), ("openMint", "byRate"), ("deposit", "eth"), ("burnWithdraw", "burn"), ("burnWithdraw", "withdraw"),
+                 ("buy", "osqth"), ("buy", "eth"), ("sell", "osqth"), ("sell", "eth")]
 
 
 def real_arg(x):
@@ -492,6 +508,10 @@ def special_op(rng, state, slot, x):
             op["mint"] = D(0)
         op[field] = x
         return op
+    if kind in ("buy", "sell"):
+        op = {"k": kind, "osqth": None, "eth": None, "call": "kw"}
+        op[field] = x
+        return op
     if vk is None:
         return None
     if kind == "deposit":
@@ -505,7 +525,7 @@ def special_check(ctx, world, op, pfx="", reject_intact=False):
     """run `op` (special arguments given as text, see SPECIALS) on the real objects; violations: a NaN / infinite number anywhere in wallet,
     vaults or positions afterwards; [reject_intact] a raising call that changed the state or recorded actions"""
     before = world.dump_state()
-    rop = {k: real_arg(v) if k in ("deposit", "mint", "byRate", "eth", "burn", "withdraw") else v for k, v in op.items()}
+    rop = {k: real_arg(v) if k in ("deposit", "mint", "byRate", "eth", "burn", "withdraw", "osqth") else v for k, v in op.items()}
     err, out, actions = world.apply_op(rop)
     after = world.dump_state()
     rep = {"spec": before, "env": dict(world.env), "op": op, "special": True}
